@@ -31,6 +31,12 @@ func c20sectionOrder(c *fw.Check) {
 	maxLen := 2
 	alpha := []byte{'0', '1', '9', 'a', 'B', '$', ' ', '.', '-'}
 	names := stringsOver(alpha, maxLen)
+	// digit runs of different width inside names of EQUAL length (a9a / a10).
+	for _, s := range stringsOver([]byte{'0', '1', '9', 'a'}, 3) {
+		if len(s) == 3 {
+			names = append(names, s)
+		}
+	}
 	if !c.Quick() {
 		for _, s := range stringsOver([]byte{'0', '1', 'a', '$', ' '}, 3) {
 			if len(s) == 3 {
